@@ -110,7 +110,7 @@ def pair(ctx):
                 if kind == "branch":
                     blk = f.blocks[pos[0]]
                     for a in cond_atoms(f, f.s(blk.term.get("cond")), val):
-                        if a[0] == "eq" and found_var in (a[1], a[2]) and a[3] is False:
+                        if found_var and a[0] == "eq" and found_var in (a[1], a[2]) and a[3] is False:
                             hit = True
             if hit:
                 ok = any(kind == "elem" and pos in ter and _iter_arg(f, ter[pos]) == found_var for kind, pos, _ in ev)
